@@ -32,7 +32,7 @@ ASSUMPTIONS = [
 REACH = {"quick": {"op:tail": 300, "op:insert": 300, "op:sort": 500, "op:unique": 300, "op:filter": 500, "op:mul": 200, "op:slice": 300, "chain>=3": 2000,
                    "tail:n=0": 30, "insert:at-or-past-end": 60, "insert:negative": 60, "sort:none-present": 150, "len:0": 200}}
 
-OPS = ["modify_if2", "modify2", "filter_pred", "filter_kv", "filter_out_pred", "filter_out_kv", "sort", "unique", "select", "unselect", "rename", "modify", "modify_if",
+OPS = ["modify_if2", "modify2", "fill_after_inplace_key", "filter_pred", "filter_kv", "filter_out_pred", "filter_out_kv", "sort", "unique", "select", "unselect", "rename", "modify", "modify_if",
        "fill_missing_keys", "fill_missing_keys_all", "append", "extend", "insert", "add", "mul", "reverse", "head", "tail", "slice", "copy", "drop_na"]
 
 def gen_items(rng, n, start=0):
@@ -124,6 +124,15 @@ def model(L, op, arg):
     if op == "modify_if":
         k, f = MODS[arg]
         return [dict(x, **{k: f(x)}) if PREDS["tag_even"](x) else x for x in L]
+    if op == "fill_after_inplace_key":
+        if not L: return []
+        L = [dict(x) for x in L]
+        L[-1]["zz_new"] = 1
+        allk = []
+        for x in L:
+            for k in x:
+                if k not in allk: allk.append(k)
+        return [dict({k: None for k in allk if k not in x}, **x) for x in L]
     if op == "modify_if2":
         return [dict(x, a=-1, flag=True) if x.get("a") == 1 else x for x in L]
     if op == "modify2":
@@ -167,6 +176,12 @@ def apply(di, data, op, arg):
     if op == "rename": return data.deepcopy().rename(**{new: old for new, old in arg})
     if op == "modify": return data.deepcopy().modify(**{MODS[arg][0]: MODS[arg][1]})
     if op == "modify_if": return data.deepcopy().modify_if(PREDS["tag_even"], **{MODS[arg][0]: MODS[arg][1]})
+    if op == "fill_after_inplace_key":
+        d2 = data.deepcopy()
+        if not len(d2): return d2.fill_missing_keys()
+        list(d2.keys()); d2.fill_missing_keys()          # something looks at the keys first ...
+        list.__getitem__(d2, len(d2) - 1)["zz_new"] = 1   # ... a key appears in place on the same list object ...
+        return d2.fill_missing_keys()                    # ... and the keys are filled again
     if op == "modify_if2": return data.deepcopy().modify_if(lambda x: x.get("a") == 1, a=lambda x: -1, flag=lambda x: True)
     if op == "modify2": return data.deepcopy().modify(a=lambda x: -2, a2=lambda x: (x.get("_tag_") if isinstance(x.get("_tag_"), int) else 0) * 10)
     if op == "fill_missing_keys": return data.deepcopy().fill_missing_keys(**arg)
@@ -228,7 +243,7 @@ def execute(case):
             res.skip(f"domain:{op}")
             continue
         name = {"filter_pred": "filter", "filter_kv": "filter", "filter_out_pred": "filter_out", "filter_out_kv": "filter_out",
-                "fill_missing_keys_all": "fill_missing_keys", "modify_if2": "modify_if", "modify2": "modify"}.get(op, op)
+                "fill_missing_keys_all": "fill_missing_keys", "modify_if2": "modify_if", "modify2": "modify", "fill_after_inplace_key": "fill_missing_keys"}.get(op, op)
         res.cls(f"op:{name}")
         n = len(L)
         feat = "plain"
